@@ -1,30 +1,38 @@
 """C05 -- retry: exact attempt accounting, sequential attempts, exact back-off.
 
+All rules are evaluated on entry points with a stable identity -- the public submit methods, the worker loop
+(the Thread target), the completion callback (the method the executor registers on the delegate's future) and the
+public policy classes -- with every private helper inlined.  No private helper is referred to by name.
+
 Decided:
-  R-POLICY    eval_policy: stop flag first; should_retry exactly once per finished attempt with (attempt, delegate
-              future); sleep_time only after a true answer, with the same arguments; any exception from the policy
-              ends retrying ('no retry'), it never escapes
-  R-CALLBACK  the delegate callback either re-queues (no resolution, so the future is not done and fires nothing
-              before the final attempt) or copies exactly that attempt's outcome to the job's future
-  R-JOB       job records: the first job has attempt 0 and is due now; the hand-over creates attempt+1 (the only
-              place the number grows) bound to that hand-over's delegate future; the re-queued job keeps the
-              attempt number and is due at (clock read after the attempt finished) + sleep_time; fn/args/kwargs/
-              policy/future are copied from the same job
-  R-NEXT      the job picked next never has an attempt in flight; among waiting jobs the earliest due one wins
-  R-DUE       the submit loop hands a job over only when `when <= now`, else waits `when - now`
-  R-TABLE     ExceptionRetryPolicy.should_retry: no exception -> False; attempt >= max_attempts -> False;
-              isinstance of a configured base -> True; else False
+  R-POLICY    per completion: the stop flag is looked at before any policy call; should_retry exactly once with
+              (the job's attempt number, the delegate future); sleep_time once, only after a true answer, with
+              the same arguments; an exception from the policy means 'no retry' and never leaves the callback
+  R-CALLBACK  a retry re-queues a record for the same future and leaves the future untouched (not done, no
+              callback before the final attempt); otherwise exactly that attempt's outcome is copied to the
+              job's future and the job is removed afterwards
+  R-JOB       records: first job attempt 0 / due now / caller's fn, args, kwargs, policy; the hand-over creates
+              attempt + 1 (the only place the number grows) bound to that hand-over's delegate future; the
+              re-queued record keeps the attempt number and is due at (clock read after the attempt finished)
+              + sleep_time; fn / args / kwargs / policy / future are copied from the same job
+  R-NEXT      the job picked by the loop never has an attempt in flight; among waiting jobs the earliest wins
+  R-DUE       hand-over only after `when <= now` was established on a fresh clock read, else a wait of `when - now`
+  R-TABLE     ExceptionRetryPolicy.should_retry decision table
   R-ARITH     ExceptionRetryPolicy.sleep_time == min(sleep * exponent ** (attempt - 1), max_sleep)
-  R-WHOCALLS  a RetryFuture is resolved only through copy_future, called only from the no-retry branch of the
-              callback and from the stop-retry branch of the loop
+  R-WHOCALLS  a retry future is resolved only on the final branch of the callback and on the stop-retry branch of
+              the loop
 Not decided: 'exactly then' as a statement about time under contention; custom policies' own logic.
 """
 from ..core import where_of, trace_of
 from ..interp import fmt, contains, subterms
-from ..model import AnalysisError
+from ..model import AnalysisError, ClassInfo
 from .. import q
+from ..roles import Layer, std_inline, bound, job_fields, container_of
 from .c03 import terminal_on
 from .c07 import norm_cmp
+
+SELF = ("param", "self")
+DEPTH = 8
 
 
 def canon(t):
@@ -49,229 +57,361 @@ def canon(t):
     return t
 
 
+def is_clock(t):
+    return isinstance(t, tuple) and t[0] == "call" and q.term_name(t[1]) == "monotonic" and not t[2]
+
+
+def discover(ctx):
+    """roles of the retry layer"""
+    prog = ctx.prog
+    rex = prog.cls("RetryExecutor")
+    lay = Layer(ctx, rex)
+    if lay.loop is None or lay.callback is None:
+        raise AnalysisError("RetryExecutor: worker loop / completion callback not found (loop=%s, callback=%s)" % (lay.loop, lay.callback))
+    # the job list and the record class: what the public submit appends
+    sub = [m for m in lay.submit_methods if m.name != "submit"] or lay.submit_methods
+    jobs_field = rec_cls = None
+    for m in lay.submit_methods:
+        ps, it = ctx.paths(m, rex, depth=4, inline=std_inline)
+        for p in ps:
+            for e in p.calls():
+                r = q.recv(e)
+                if q.call_name(e) in ("append", "add", "insert", "appendleft") and isinstance(r, tuple) and r[0] == "attr" and r[1] == SELF and e.d["args"]:
+                    t = it.type_of(e.d["args"][-1], p)
+                    c = ctx.types.cls_of(t) if t else None
+                    if c is not None:
+                        jobs_field, rec_cls = r[2], c
+    if jobs_field is None:
+        raise AnalysisError("RetryExecutor.submit: enqueue of a job record not found")
+    lay.jobs_field = jobs_field
+    lay.rec_cls = rec_cls
+    # record field roles, from the first job built by submit:  which field holds the future returned, etc.
+    lay.roles = {}
+    for m in lay.submit_methods:
+        if "fn" not in m.params:
+            continue
+        ps, it = ctx.paths(m, rex, depth=4, inline=std_inline)
+        for p in ps:
+            if p.status != "return":
+                continue
+            objs = [k for k, t in p.types.items() if t == "C:" + rec_cls.key and k[0] == "new"]
+            for obj in objs:
+                jf = job_fields(p, obj)
+                for f, v in jf.items():
+                    if v == p.value:
+                        lay.roles["future"] = f
+                    elif v == ("param", "fn"):
+                        lay.roles["fn"] = f
+                    elif v == ("seq", (), ("param", m.vararg), 0):
+                        lay.roles["args"] = f
+                    elif v == ("kw", (), ("param", m.kwarg)):
+                        lay.roles["kwargs"] = f
+                    elif v == ("param", m.params[1]) and m.params[1] != "fn":
+                        lay.roles["policy"] = f
+                    elif is_clock(v):
+                        lay.roles["when"] = f
+                    elif v == ("const", 0) and type(v[1]) is int:
+                        lay.roles["attempt"] = f
+                lay.first_job = (m, obj)
+    need = {"future", "fn", "args", "kwargs", "policy", "when", "attempt"}
+    if not need <= set(lay.roles):
+        raise AnalysisError("RetryExecutor: record fields not identified: missing %s" % sorted(need - set(lay.roles)))
+    return lay
+
+
 def check(ctx, rep):
     prog = ctx.prog
-    rep.rule("R-POLICY", "eval_policy tests the stop flag before any policy call; calls should_retry once with (job.attempt, job.delegate_future), sleep_time once and only after a true answer with the same arguments; every exception raised by the policy is caught and means 'no retry'")
-    rep.rule("R-CALLBACK", "per delegate completion: the policy is evaluated at most once; a retry re-queues the job without touching the future; otherwise the attempt's outcome is copied to the job's future and the job is removed")
-    rep.rule("R-JOB", "job records carry the same (policy, future, fn, args, kwargs) through hand-over and re-queue; attempt: 0 at submit, +1 (constant) at hand-over only, unchanged at re-queue; when: now at submit, None in flight, (fresh clock read) + sleep_time at re-queue")
-    rep.rule("R-NEXT", "_get_next_job skips every job with an attempt in flight, returns a stop-flagged or overdue job at once, otherwise the waiting job with the smallest due time")
-    rep.rule("R-DUE", "the submit loop calls _submit_now(job) only after `job.when <= now` was established on a fresh clock read, and otherwise waits exactly `job.when - now`")
+    rep.rule("R-POLICY", "on every path of the completion callback: the stop flag is tested before any policy call; should_retry is called at most once, with (job attempt, delegate future); sleep_time once and only after a true answer with the same arguments; no path leaves the callback by an exception raised in the policy")
+    rep.rule("R-CALLBACK", "per completion: a retry appends a record for the same future and does not touch the future; otherwise the completed delegate's outcome is copied to the job's future and the job is removed after that")
+    rep.rule("R-JOB", "records carry the same (policy, future, fn, args, kwargs); attempt: 0 at submit, +1 (constant) at hand-over only, unchanged at re-queue; due time: now at submit, (fresh clock read) + sleep_time at re-queue; the in-flight record holds the delegate future of its own hand-over")
+    rep.rule("R-NEXT", "the job selected by the loop has no attempt in flight; a stop-flagged or overdue job is taken at once, otherwise the waiting job with the smallest due time")
+    rep.rule("R-DUE", "the loop hands a job over only after `job.when <= now` on a fresh clock read, and otherwise waits exactly `job.when - now`")
     rep.rule("R-TABLE", "ExceptionRetryPolicy.should_retry decision table")
     rep.rule("R-ARITH", "ExceptionRetryPolicy.sleep_time has the closed form min(sleep * exponent ** (attempt - 1), max_sleep)")
-    rep.rule("R-WHOCALLS", "copy_future (the only resolver of retry futures) is called from exactly the no-retry branch of the delegate callback and the stop-retry branch of the submit loop")
-    rex = prog.cls("RetryExecutor")
-    SELF = ("param", "self")
+    rep.rule("R-WHOCALLS", "the future of a job is resolved (result / exception set) only on the no-retry branch of the completion callback and on the stop-retry branch of the worker loop")
+    lay = discover(ctx)
+    rex = lay.cls
+    R = lay.roles
+    JF = lay.jobs_field
+    JOBS = ("attr", SELF, JF)
+    rep.note("retry roles: loop=%s callback=%s jobs=%s record=%s fields=%s" % (lay.loop.qualname, lay.callback.qualname, JF, lay.rec_cls.name, R))
 
-    # ------------------------------------------------------------------ eval_policy
-    ep = prog.fn("retry:eval_policy")
-    ps, it = ctx.paths(ep, None, depth=0)
-    JOB = ("param", ep.params[0])
-    want_args = (("attr", JOB, "attempt"), ("attr", JOB, "delegate_future"))
+    def rec_new(p):
+        return [k for k, t in p.types.items() if t == "C:" + lay.rec_cls.key and k[0] == "new"]
+
+    # ---------------------------------------------------------------- first job
+    m0, _ = lay.first_job
+    ps, it = ctx.paths(m0, rex, depth=4, inline=std_inline)
+    for p in ps:
+        if p.status != "return":
+            continue
+        objs = rec_new(p)
+        rep.ob("R-JOB", "submit: exactly one job record per submission", len(objs) == 1, "%d records built" % len(objs), where_of(m0), trace_of(p))
+        if len(objs) != 1:
+            continue
+        jf = job_fields(p, objs[0])
+        inflight = [f for f, v in jf.items() if f not in R.values() and v == ("const", None)]
+        ok = jf.get(R["attempt"]) == ("const", 0) and type(jf[R["attempt"]][1]) is int and is_clock(jf.get(R["when"])) and jf.get(R["fn"]) == ("param", "fn")
+        rep.ob("R-JOB", "submit: first job is attempt 0, due now, with the caller's fn / args / kwargs / policy", ok, "fields: %s" % dict((k, fmt(v)) for k, v in jf.items()), where_of(m0), trace_of(p))
+        apps = [e for e in p.calls() if q.call_name(e) in ("append", "add") and q.recv(e) == JOBS and e.d["args"] == (objs[0],)]
+        rep.ob("R-JOB", "submit: the record is enqueued once", len(apps) == 1, "", where_of(m0))
+    # which record field marks 'attempt in flight' (holds the delegate future) and which is the stop flag:
+    # discovered on the hand-over / cancel paths below
+
+    # ---------------------------------------------------------------- worker loop
+    loop = lay.loop
+    ps, it = ctx.paths(loop, loop.owner, depth=DEPTH, inline=std_inline, maxpaths=20000)
+    X = None
+    for p in ps:
+        for b in p.evs("branch"):
+            if it.type_of(b.d[0], p) == "C:" + rex.key:
+                X = b.d[0]
+    rep.require(X is not None, "retry worker loop: executor dereference not found")
+    XJOBS = ("attr", X, JF)
+    nsub = nwait = nstop = 0
+    inflight_field = stop_field = None
+    for p in ps:
+        subs = [e for e in p.calls() if q.call_name(e) == "submit" and q.recv(e) == ("attr", X, "_delegate")]
+        for e in subs:
+            nsub += 1
+            a = e.d["args"]
+            job = a[0][1] if a and isinstance(a[0], tuple) and a[0][0] == "attr" and a[0][2] == R["fn"] else None
+            rep.ob("R-JOB", "hand-over: submits the job's own (fn, *args, **kwargs)", job is not None and a == (("attr", job, R["fn"]), ("star", ("attr", job, R["args"]))) and tuple(e.d["kwargs"]) == ((None, ("attr", job, R["kwargs"])),), "submit(%s; %s)" % ([fmt(x) for x in a], [(k, fmt(v)) for k, v in e.d["kwargs"]]), where_of(e.fn, e.node), trace_of(p, e.seq))
+            if job is None:
+                continue
+            dres = ("call", e.d["func"], e.d["args"], e.d["kwargs"], e.d.get("site"))
+            others = [x for x in subs if x is not e]
+            rep.ob("R-JOB", "hand-over: one delegate submit per iteration", not others, "%d delegate submits in one iteration" % len(subs), where_of(e.fn, e.node), trace_of(p))
+            objs = [o for o in rec_new(p)]
+            rep.ob("R-JOB", "hand-over: one in-flight record", len(objs) == 1, "%d records built" % len(objs), where_of(e.fn, e.node), trace_of(p))
+            if len(objs) != 1:
+                continue
+            jf = job_fields(p, objs[0])
+            holders = [f for f, v in jf.items() if isinstance(v, tuple) and v[:2] == ("call", e.d["func"])]
+            rep.ob("R-JOB", "hand-over: the in-flight record holds this hand-over's delegate future", len(holders) == 1, "fields holding the delegate future: %s" % holders, where_of(e.fn, e.node), trace_of(p))
+            if len(holders) == 1:
+                inflight_field = holders[0]
+            ok = jf.get(R["attempt"]) == ("bin", "+", ("attr", job, R["attempt"]), ("const", 1)) and all(jf.get(R[k]) == ("attr", job, R[k]) for k in ("policy", "future", "fn", "args", "kwargs"))
+            rep.ob("R-JOB", "hand-over: same job, attempt + 1", ok, "new record: %s" % dict((k, fmt(v)) for k, v in jf.items()), where_of(e.fn, e.node), trace_of(p))
+            apps = [x for x in p.calls() if q.call_name(x) in ("append", "add") and q.recv(x) == XJOBS and x.d["args"] == (objs[0],)]
+            regs = [x for x in p.calls() if q.call_name(x) == "add_done_callback" and isinstance(q.recv(x), tuple) and q.recv(x)[:2] == ("call", e.d["func"])]
+            okr = len(regs) == 1 and regs[0].d["args"] == (("attr", X, lay.callback.name),)
+            rep.ob("R-JOB", "hand-over: the completion callback is registered exactly once on this delegate future", okr, "registrations: %s" % [[fmt(z) for z in x.d["args"]] for x in regs], where_of(e.fn, e.node), trace_of(p))
+            rep.ob("R-JOB", "hand-over: the callback is registered after the in-flight record is in the list", len(apps) == 1 and bool(regs) and apps[0].seq < regs[0].seq, "the callback could run before its job exists", where_of(e.fn, e.node), trace_of(p))
+            due = None
+            for b in p.evs("branch"):
+                n = norm_cmp(b.d[0], b.d[1])
+                if n and b.seq < e.seq and n[0] == ("attr", job, R["when"]) and n[1] == "<=" and is_clock(n[2]):
+                    due = b
+            rep.ob("R-DUE", "loop: hand-over only when the job is due", due is not None, "the delegate submit is reached without establishing job.%s <= now" % R["when"], where_of(e.fn, e.node), trace_of(p, e.seq))
+        for e in p.calls():
+            if q.call_name(e) == "wait" and it.type_of(q.recv(e), p) == "E:Event" and e.d["args"] and e.d["args"][0] != ("const", None):
+                d = e.d["args"][0]
+                nwait += 1
+                ok = isinstance(d, tuple) and d[0] == "bin" and d[1] == "-" and isinstance(d[2], tuple) and d[2][0] == "attr" and d[2][2] == R["when"] and is_clock(d[3])
+                notdue = []
+                if ok:
+                    for b in p.evs("branch"):
+                        n = norm_cmp(b.d[0], b.d[1])
+                        if n and b.seq < e.seq and n[2] == d[2] and n[1] == "<" and n[0] == d[3]:
+                            notdue.append(b)
+                rep.ob("R-DUE", "loop: otherwise wait exactly until the job is due", ok and bool(notdue), "timed wait of %s" % fmt(d), where_of(e.fn, e.node), trace_of(p, e.seq))
+    rep.require(nsub >= 1 and nwait >= 1 and inflight_field is not None, "retry worker loop: hand-over / timed wait not found")
+    # the job handed over / waited for was selected with no attempt in flight
+    for p in ps:
+        for e in p.calls():
+            if q.call_name(e) == "submit" and q.recv(e) == ("attr", X, "_delegate") and e.d["args"] and e.d["args"][0][0] == "attr":
+                job = e.d["args"][0][1]
+                fl = [b for b in p.evs("branch") if b.d[0] == ("attr", job, inflight_field) and b.seq < e.seq]
+                rep.ob("R-NEXT", "loop: the job handed over has no attempt in flight", bool(fl) and fl[0].d[1] is False, "job.%s is %s before the hand-over" % (inflight_field, "not tested" if not fl else "true"), where_of(e.fn, e.node), trace_of(p, e.seq))
+
+    # ---------------------------------------------------------------- completion callback
+    cb = lay.callback
+    ps, it = ctx.paths(cb, rex, depth=DEPTH, inline=std_inline, maxpaths=20000)
+    DP = ("param", cb.params[1])
     kinds = set()
     for p in ps:
-        sig = q.path_sig(p)
-        sr = [e for e in p.calls() if q.call_name(e) == "should_retry"]
-        st = [e for e in p.calls() if q.call_name(e) == "sleep_time"]
-        flag = [e for e in p.evs("branch") if e.d[0] == ("attr", JOB, "stop_retry")]
+        pol = [e for e in p.calls() if e.d.get("user")]
+        sr = [e for e in pol if q.call_name(e) == "should_retry"]
+        st = [e for e in pol if q.call_name(e) == "sleep_time"]
+        # the job this completion belongs to: selected by comparing a record's in-flight field with the parameter
+        job = None
+        for b in p.evs("branch"):
+            t = b.d[0]
+            if isinstance(t, tuple) and t[0] == "cmp" and t[1] in ("==", "is") and b.d[1] is True and DP in (t[2], t[3]):
+                o = t[2] if t[3] == DP else t[3]
+                if isinstance(o, tuple) and o[0] == "attr" and o[2] == inflight_field:
+                    job = o[1]
+        if job is None:
+            continue
+        D = ("attr", job, R["future"])
+        terms = [e for e in p.calls() if terminal_on(e, D, it, p)]
+        resolved = [e for e in terms if q.call_name(e) != "cancel"]
+        apps = [e for e in p.calls() if q.call_name(e) in ("append", "add") and q.recv(e) == JOBS]
+        pops = [e for e in p.calls() if q.call_name(e) in ("pop", "remove") and q.recv(e) == JOBS]
+        flags = [b for b in p.evs("branch") if isinstance(b.d[0], tuple) and b.d[0][0] == "attr" and b.d[0][1] == job and b.d[0][2] not in (inflight_field,) and b.d[0][2] not in R.values()]
         if p.status == "raise":
-            rep.ob("R-POLICY", "eval_policy: an exception from the policy never escapes", False, "a raising %s leaves eval_policy by exception %s: the delegate callback dies, the future is never resolved and the job is never removed" % ("sleep_time" if st else "should_retry", fmt(p.value)), where_of(ep), trace_of(p))
+            v = p.value
+            user = isinstance(v, tuple) and len(v) > 2 and isinstance(v[2], tuple) and v[2][:1] == ("from",)
+            rep.ob("R-POLICY", "callback: an exception from the policy never escapes", not user, "a raising %s leaves the completion callback by exception: the future is never resolved and the job is never removed" % ("sleep_time" if st else "should_retry"), where_of(cb), trace_of(p))
             continue
-        rep.ob("R-POLICY", "eval_policy: stop flag tested before any policy call", bool(flag) and all(flag[0].seq < e.seq for e in sr + st), "the policy is consulted before (or without) looking at stop_retry", where_of(ep), trace_of(p))
-        if flag and flag[0].d[1] is True:
-            kinds.add("stopped")
-            rep.ob("R-POLICY", "eval_policy: stop flag set -> no retry, policy not consulted", not sr and not st and p.value == ("tuple", (("const", False), ("const", None))), "returns %s after %d policy calls" % (fmt(p.value), len(sr) + len(st)), where_of(ep), trace_of(p))
+        cancelled = any(isinstance(b.d[0], tuple) and b.d[0][0] == "call" and b.d[0][1] == ("attr", DP, "cancelled") and b.d[1] for b in p.evs("branch"))
+        if cancelled:
             continue
-        caught = p.evs("catch")
+        want_args = (("attr", job, R["attempt"]), ("attr", job, inflight_field))
+        rep.ob("R-POLICY", "callback: should_retry at most once per completion", len(sr) <= 1, "should_retry x%d" % len(sr), where_of(cb), trace_of(p))
+        if flags:
+            stop_field = flags[0].d[0][2]
+            rep.ob("R-POLICY", "callback: stop flag tested before any policy call", all(flags[0].seq < e.seq for e in pol), "the policy is consulted before the stop flag is looked at", where_of(cb), trace_of(p))
+            if flags[0].d[1] is True:
+                kinds.add("stopped")
+                rep.ob("R-POLICY", "callback: stop flag set -> policy not consulted, no retry", not pol and not apps, "policy calls: %d, re-queued: %s" % (len(pol), bool(apps)), where_of(cb), trace_of(p))
+        else:
+            rep.ob("R-POLICY", "callback: stop flag tested before any policy call", not pol, "the policy is consulted without looking at a stop flag", where_of(cb), trace_of(p))
+        for e in sr:
+            rep.ob("R-POLICY", "callback: should_retry receives (attempt, delegate future) of this job's policy", tuple(e.d["args"]) == want_args and q.recv(e) == ("attr", job, R["policy"]), "should_retry(%s) on %s" % ([fmt(a) for a in e.d["args"]], fmt(q.recv(e))), where_of(e.fn, e.node), trace_of(p, e.seq))
+        ans = None
+        if len(sr) == 1:
+            ans = q.truth_of(p, ("call", sr[0].d["func"], sr[0].d["args"], sr[0].d["kwargs"], None))
+        caught = [c for c in p.evs("catch") if isinstance(c.d["exc"], tuple) and len(c.d["exc"]) > 2 and isinstance(c.d["exc"][2], tuple) and c.d["exc"][2][:1] == ("from",)]
         if caught:
             kinds.add("policy raised")
-            rep.ob("R-POLICY", "eval_policy: a raising policy means no retry", p.value == ("tuple", (("const", False), ("const", None))) and caught[0].d["names"] in (["Exception"], None), "handler (%s) returns %s" % (caught[0].d["names"], fmt(p.value)), where_of(ep), trace_of(p))
-            continue
-        rep.ob("R-POLICY", "eval_policy: should_retry called exactly once with (attempt, delegate future)", len(sr) == 1 and tuple(sr[0].d["args"]) == want_args and q.recv(sr[0]) == ("attr", JOB, "policy"), "should_retry calls: %s" % [[fmt(a) for a in e.d["args"]] for e in sr], where_of(ep), trace_of(p))
-        if len(sr) != 1:
-            continue
-        res = ("call", sr[0].d["func"], sr[0].d["args"], sr[0].d["kwargs"], None)
-        ans = p.assume.get(res)
-        if ans:
-            kinds.add("retry")
-            ok = len(st) == 1 and tuple(st[0].d["args"]) == want_args and st[0].seq > sr[0].seq and q.recv(st[0]) == ("attr", JOB, "policy")
-            rep.ob("R-POLICY", "eval_policy: sleep_time once, after a true answer, same arguments", ok, "sleep_time calls: %s" % [[fmt(a) for a in e.d["args"]] for e in st], where_of(ep), trace_of(p))
-            if ok:
-                sres = ("call", st[0].d["func"], st[0].d["args"], st[0].d["kwargs"], None)
-                rep.ob("R-POLICY", "eval_policy: returns (answer, delay)", p.value == ("tuple", (res, sres)), "returns %s" % fmt(p.value), where_of(ep))
+            rep.ob("R-POLICY", "callback: a raising policy means no retry", not apps and bool(resolved), "after a policy exception: re-queued %s, future resolved %s" % (bool(apps), bool(resolved)), where_of(cb), trace_of(p))
+        elif ans:
+            rep.ob("R-POLICY", "callback: sleep_time once, after a true answer, same arguments", len(st) == 1 and tuple(st[0].d["args"]) == want_args and st[0].seq > sr[0].seq, "sleep_time calls: %s" % [[fmt(a) for a in e.d["args"]] for e in st], where_of(cb), trace_of(p))
         else:
-            kinds.add("no retry")
-            rep.ob("R-POLICY", "eval_policy: no sleep_time after a false answer", not st and isinstance(p.value, tuple) and p.value[0] == "tuple" and p.value[1][0] == res, "sleep_time x%d, returns %s" % (len(st), fmt(p.value)), where_of(ep), trace_of(p))
-    rep.require({"stopped", "policy raised", "retry", "no retry"} <= kinds, "eval_policy: expected stopped / raising / retry / no-retry paths, found %s" % sorted(kinds))
-
-    # --------------------------------------------------------------- delegate callback
-    cb = rex.methods.get("_delegate_callback")
-    ps, it = ctx.paths(cb, rex, depth=6)
-    kinds = set()
-    epf = ep
-    for p in ps:
-        evals = [e for e in p.calls() if e.d["callee"] is epf]
-        rt = [e for e in p.calls() if e.d["callee"] is not None and e.d["callee"].name == "_retry"]
-        cf = [e for e in p.calls() if e.d["callee"] is not None and e.d["callee"].name == "copy_future"]
-        pops = [e for e in p.calls() if q.call_name(e) == "pop" and isinstance(q.recv(e), tuple) and q.recv(e)[0] == "attr" and q.recv(e)[2] == "_jobs"]
-        if not evals:
-            continue
-        job = evals[0].d["args"][0]
-        D = ("attr", job, "future")
-        rep.ob("R-CALLBACK", "_delegate_callback: policy evaluated once per completion", len(evals) == 1, "eval_policy x%d" % len(evals), where_of(cb), trace_of(p))
-        terms = [e for e in p.calls() if terminal_on(e, D, it, p)]
-        if p.status == "raise":
-            rep.ob("R-CALLBACK", "_delegate_callback does not exit by exception", False, "raises %s" % fmt(p.value), where_of(cb), trace_of(p))
-            continue
-        if rt:
+            rep.ob("R-POLICY", "callback: no sleep_time without a true answer", not st, "sleep_time x%d" % len(st), where_of(cb), trace_of(p))
+        if apps:
             kinds.add("retry")
-            ok = len(rt) == 1 and rt[0].d["args"][0] == job and not terms and not cf
-            rep.ob("R-CALLBACK", "_delegate_callback: a retry re-queues the same job and leaves the future pending", ok, "on the retry branch: _retry x%d, future resolved: %s" % (len(rt), bool(terms or cf)), where_of(cb), trace_of(p))
-            # the delay handed to _retry is the policy's answer
-            sl = [e for e in p.calls() if q.call_name(e) == "sleep_time"]
-            if sl and len(rt[0].d["args"]) > 1:
-                sres = ("call", sl[0].d["func"], sl[0].d["args"], sl[0].d["kwargs"], None)
-                rep.ob("R-CALLBACK", "_delegate_callback: the delay is the policy's sleep_time", rt[0].d["args"][1] == sres, "_retry receives %s" % fmt(rt[0].d["args"][1]), where_of(cb))
+            objs = rec_new(p)
+            ok = len(apps) == 1 and len(objs) == 1 and apps[0].d["args"] == (objs[0],) and ans is True
+            rep.ob("R-CALLBACK", "callback: a retry re-queues exactly one record, only after a true should_retry", ok, "appends: %d, should_retry answered %s" % (len(apps), ans), where_of(cb), trace_of(p))
+            rep.ob("R-CALLBACK", "callback: a retry leaves the future untouched", not terms, "the future is resolved / cancelled on the retry branch: it would be done before the final attempt", where_of(cb), trace_of(p))
+            if len(objs) == 1:
+                jf = job_fields(p, objs[0])
+                w = jf.get(R["when"])
+                sres = ("call", st[0].d["func"], st[0].d["args"], st[0].d["kwargs"], None) if len(st) == 1 else None
+                clock_ok = isinstance(w, tuple) and w[0] == "bin" and w[1] == "+" and sres is not None and ((is_clock(w[2]) and w[3] == sres) or (is_clock(w[3]) and w[2] == sres))
+                rep.ob("R-JOB", "re-queue: next attempt is due at (clock read now, after the attempt finished) + sleep_time", clock_ok, "when = %s" % (fmt(w) if w else None), where_of(cb), trace_of(p))
+                ok = jf.get(R["attempt"]) == ("attr", job, R["attempt"]) and jf.get(inflight_field) == ("const", None) and all(jf.get(R[k]) == ("attr", job, R[k]) for k in ("policy", "future", "fn", "args", "kwargs"))
+                rep.ob("R-JOB", "re-queue: same job, same attempt number, no delegate in flight", ok, "new record: %s" % dict((k, fmt(v)) for k, v in jf.items()), where_of(cb), trace_of(p))
+                if stop_field:
+                    rep.ob("R-JOB", "re-queue: the stop flag is inherited", jf.get(stop_field) == ("attr", job, stop_field), "%s = %s" % (stop_field, fmt(jf[stop_field]) if jf.get(stop_field) else None), where_of(cb), trace_of(p))
+                rem = [e for e in pops if e.seq < apps[0].seq]
+                rep.ob("R-CALLBACK", "callback: the finished attempt's record is replaced, not duplicated", bool(rem) or _zero_pop(p, JOBS), "the old record stays next to the new one", where_of(cb), trace_of(p))
         else:
             kinds.add("final")
-            ok = len(cf) == 1 and cf[0].d["args"] == (("param", cb.params[1]), D)
-            rep.ob("R-CALLBACK", "_delegate_callback: the final attempt's outcome is copied to the job's future", ok, "copy_future calls: %s" % [[fmt(a) for a in e.d["args"]] for e in cf], where_of(cb), trace_of(p))
-            pj = [e for e in p.calls() if e.d["callee"] is not None and e.d["callee"].name == "_pop_job"]
-            rep.ob("R-CALLBACK", "_delegate_callback: the finished job is removed after the future is resolved", len(pj) == 1 and bool(cf) and pj[0].seq > cf[0].seq and pj[0].d["args"][:1] == (job,) and all(x.seq > cf[0].seq for x in pops), "_pop_job calls: %d" % len(pj), where_of(cb), trace_of(p))
-    rep.require(kinds == {"retry", "final"}, "_delegate_callback: expected retry and final paths")
-    # copy_future: value -> tolerant set_result(f1.result()); exception -> copied from f1
-    cpf = prog.fn("retry:copy_future")
-    ps, it = ctx.paths(cpf, None, depth=1)
-    F1, F2 = ("param", cpf.params[0]), ("param", cpf.params[1])
-    for p in ps:
-        if p.status == "raise":
-            continue
-        failed = None
-        for t, v in p.branch_atoms():
-            if isinstance(t, tuple) and t[0] == "call" and t[1] == ("attr", F1, "exception"):
-                failed = v if failed is None else failed
-            if isinstance(t, tuple) and t[0] == "cmp" and t[1] == "is" and t[2][:2] == ("call", ("attr", F1, "exception")) and t[3] == ("const", None):
-                failed = (not v) if failed is None else failed
-        rep.require(failed is not None, "copy_future: test of f1.exception() not found")
-        if failed:
-            ok = any(c.d["callee"] is not None and c.d["callee"].name == "copy_future_exception" and c.d["args"] == (F1, F2) for c in p.calls()) and not [c for c in p.calls() if q.call_name(c) == "set_result"]
-            rep.ob("R-CALLBACK", "copy_future: a failed attempt's exception is copied from the delegate", ok, "", where_of(cpf), trace_of(p))
-        else:
-            sr = [c for c in p.calls() if q.call_name(c) == "set_result" and q.recv(c) == F2]
-            ok = len(sr) == 1 and sr[0].d["args"][0][:2] == ("call", ("attr", F1, "result"))
-            rep.ob("R-CALLBACK", "copy_future: a successful attempt's value becomes the result", ok, "", where_of(cpf), trace_of(p))
+            ok = bool(resolved) and _from_delegate(p, resolved, DP, D)
+            rep.ob("R-CALLBACK", "callback: the final attempt's outcome is copied to the job's future", ok, "the job's future is %s" % ("not resolved" if not resolved else "resolved with something else than the completed delegate's outcome"), where_of(cb), trace_of(p))
+            if resolved and pops:
+                rep.ob("R-CALLBACK", "callback: the finished job is removed after the future is resolved", all(x.seq > resolved[0].seq for x in pops), "", where_of(cb), trace_of(p))
+    rep.require({"retry", "final", "policy raised"} <= kinds, "completion callback: expected retry / final / raising-policy paths, found %s" % sorted(kinds))
 
-    # -------------------------------------------------------------------- job records
-    RJ = prog.cls("RetryJob")
-    fields = ("policy", "delegate_future", "future", "attempt", "when", "fn", "args", "kwargs")
-
-    def job_fields(p, obj):
-        return dict((f, p.heap.get(("attr", obj, f))) for f in fields + ("old_delegate", "stop_retry"))
-
-    sr_ = rex.methods.get("submit_retry")
-    ps, it = ctx.paths(sr_, rex, depth=1, inline=_job_init_only)
-    for p in ps:
-        if p.status != "return":
-            continue
-        mk = [e for e in p.calls() if e.d["func"] == ("class", RJ.key)]
-        rep.require(len(mk) == 1, "submit_retry: expected one RetryJob per path")
-        obj = [k[1] for k in p.heap if k[0] == "attr" and k[2] == "attempt" and k[1][0] == "new"]
-        jf = job_fields(p, obj[0]) if obj else {}
-        ok = jf.get("attempt") == ("const", 0) and jf.get("delegate_future") == ("const", None) and isinstance(jf.get("when"), tuple) and q.term_name(jf["when"][1]) == "monotonic" and jf.get("policy") == ("param", sr_.params[1]) and jf.get("fn") == ("param", sr_.params[2]) and jf.get("args") == ("seq", (), ("param", sr_.vararg), 0) and jf.get("kwargs") == ("kw", (), ("param", sr_.kwarg))
-        rep.ob("R-JOB", "submit_retry: first job (attempt 0, due now, caller's fn/args/kwargs/policy)", ok, "job fields: %s" % dict((k, fmt(v)) for k, v in jf.items() if v is not None), where_of(sr_, mk[0].node))
-        futv = jf.get("future")
-        rep.ob("R-JOB", "submit_retry: the job's future is the one returned", futv is not None and p.value == futv, "returns %s, job holds %s" % (fmt(p.value), fmt(futv) if futv else None), where_of(sr_))
-    sn = rex.methods.get("_submit_now")
-    ps, it = ctx.paths(sn, rex, depth=2, inline=_job_init_only)
-    J = ("param", sn.params[1])
-    nh = 0
-    for p in ps:
-        subs = [e for e in p.calls() if q.call_name(e) == "submit" and q.recv(e) == ("attr", SELF, "_delegate")]
-        if not subs:
-            continue
-        nh += 1
-        rep.ob("R-JOB", "_submit_now: exactly one delegate submit per hand-over, with the job's fn/args/kwargs", len(subs) == 1 and subs[0].d["args"] == (("attr", J, "fn"), ("star", ("attr", J, "args"))) and tuple(subs[0].d["kwargs"]) == ((None, ("attr", J, "kwargs")),), "submit(%s; %s)" % ([fmt(a) for a in subs[0].d["args"]], [(k, fmt(v)) for k, v in subs[0].d["kwargs"]]), where_of(sn, subs[0].node), trace_of(p))
-        dres = [v for k, v in p.heap.items() if k == ("attr", ("attr", J, "future"), "delegate_future")]
-        obj = [k[1] for k in p.heap if k[0] == "attr" and k[2] == "attempt" and k[1][0] == "new"]
-        jf = job_fields(p, obj[0]) if obj else {}
-        dfut = jf.get("delegate_future")
-        ok = isinstance(dfut, tuple) and dfut[:2] == ("call", subs[0].d["func"]) and jf.get("attempt") == ("bin", "+", ("attr", J, "attempt"), ("const", 1)) and jf.get("when") == ("const", None)
-        ok = ok and all(jf.get(f) == ("attr", J, f) for f in ("policy", "future", "fn", "args", "kwargs"))
-        rep.ob("R-JOB", "_submit_now: in-flight job = same job, attempt + 1, this hand-over's delegate future", ok, "new job fields: %s" % dict((k, fmt(v)) for k, v in jf.items() if v is not None), where_of(sn), trace_of(p))
-        rep.ob("R-JOB", "_submit_now: the future's delegate link is this hand-over's delegate future", dres and dres[0] == dfut, "", where_of(sn))
-        regs = [e for e in p.calls() if q.call_name(e) == "add_done_callback" and q.recv(e) == dfut]
-        rep.ob("R-JOB", "_submit_now: the completion callback is registered exactly once on that delegate future", len(regs) == 1 and regs[0].d["args"] == (("attr", SELF, "_delegate_callback"),), "registrations: %d" % len(regs), where_of(sn), trace_of(p))
-        apps = [e for e in p.calls() if q.call_name(e) == "append" and q.recv(e) == ("attr", SELF, "_jobs")]
-        rep.ob("R-JOB", "_submit_now: the callback is registered after the in-flight job is in the list", bool(apps) and bool(regs) and apps[0].seq < regs[0].seq, "the callback could run before its job exists", where_of(sn))
-    rep.require(nh >= 2, "_submit_now: hand-over paths not found")
-    rt = rex.methods.get("_retry")
-    ps, it = ctx.paths(rt, rex, depth=2, inline=_job_init_only)
-    J = ("param", rt.params[1])
-    S = ("param", rt.params[2])
-    for p in ps:
-        if p.status != "return":
-            continue
-        obj = [k[1] for k in p.heap if k[0] == "attr" and k[2] == "attempt" and k[1][0] == "new"]
-        rep.require(obj, "_retry: new job not found")
-        jf = job_fields(p, obj[0])
-        w = jf.get("when")
-        clock_ok = isinstance(w, tuple) and w[0] == "bin" and w[1] == "+" and ((q.term_name(w[2][1]) == "monotonic" and w[2][0] == "call" and w[3] == S) or (w[3][0] == "call" and q.term_name(w[3][1]) == "monotonic" and w[2] == S))
-        rep.ob("R-JOB", "_retry: next attempt is due at (clock read now, after the attempt finished) + sleep_time", clock_ok, "when = %s" % (fmt(w) if w else None), where_of(rt), trace_of(p))
-        ok = jf.get("attempt") == ("attr", J, "attempt") and jf.get("delegate_future") == ("const", None) and all(jf.get(f) == ("attr", J, f) for f in ("policy", "future", "fn", "args", "kwargs")) and jf.get("old_delegate") == ("attr", J, "delegate_future")
-        rep.ob("R-JOB", "_retry: re-queued job = same job, same attempt number, no delegate, old delegate kept", ok, "new job fields: %s" % dict((k, fmt(v)) for k, v in jf.items() if v is not None), where_of(rt), trace_of(p))
-        rep.ob("R-JOB", "_retry: the stop flag is inherited", jf.get("stop_retry") == ("attr", J, "stop_retry"), "stop_retry = %s" % (fmt(jf["stop_retry"]) if jf.get("stop_retry") else None), where_of(rt))
-
-    # ------------------------------------------------------------------ next job
-    gn = rex.methods.get("_get_next_job")
-    ps, it = ctx.paths(gn, rex, depth=0, unroll=2)
+    # ---------------------------------------------------------------- selection of the next job
+    sel = None
+    ps_loop, it_loop = ctx.paths(loop, loop.owner, depth=DEPTH, inline=std_inline, maxpaths=20000)
+    for p in ps_loop:
+        for e in p.calls():
+            c = e.d["callee"]
+            if c is not None and c.owner is rex and e.d["inlined"]:
+                inner = [l for l in p.evs("loop") if l.fn is c and l.d[0] == "enter" and l.d[1] == XJOBS]
+                if inner:
+                    sel = c
+    rep.require(sel is not None, "retry worker loop: the function that selects the next job was not identified")
+    ps, it = ctx.paths(sel, rex, depth=2, inline=std_inline, unroll=2)
     nret = 0
     for p in ps:
         if p.status != "return" or p.value == ("const", None):
             continue
         v = p.value
         if p.assume.get(v) is False:
-            continue  # a job object is never falsy
+            continue
         nret += 1
         atoms = p.branch_atoms()
-        inflight = [tv for t, tv in atoms if t == ("attr", v, "delegate_future")]
-        rep.ob("R-NEXT", "_get_next_job never returns a job with an attempt in flight", inflight == [False], "returned %s with delegate_future tested %s" % (fmt(v), inflight), where_of(gn), trace_of(p))
-        # if two waiting jobs were compared, the returned one is not later than the other
+        inflight = [tv for t, tv in atoms if t == ("attr", v, inflight_field)]
+        rep.ob("R-NEXT", "selection never returns a job with an attempt in flight", inflight == [False], "returned %s with %s tested %s" % (fmt(v), inflight_field, inflight), where_of(sel), trace_of(p))
         for t, tv in atoms:
             n = norm_cmp(t, tv)
-            if n and n[0][0] == "attr" and n[2][0] == "attr" and n[0][2] == "when" and n[2][2] == "when" and n[0][1] != n[2][1]:
+            if n and n[0][0] == "attr" and n[2][0] == "attr" and n[0][2] == R["when"] and n[2][2] == R["when"] and n[0][1] != n[2][1]:
                 early = n[0][1]
-                rep.ob("R-NEXT", "_get_next_job prefers the earlier due time", (v == early) or (n[1] == "<=" and v == n[2][1]) and False or v == early, "established %s.when %s %s.when but returns %s" % (fmt(n[0][1]), n[1], fmt(n[2][1]), fmt(v)), where_of(gn), trace_of(p))
-    rep.require(nret >= 6, "_get_next_job: returning paths not found")
+                rep.ob("R-NEXT", "selection prefers the earlier due time", v == early, "established %s.when %s %s.when but returns %s" % (fmt(n[0][1]), n[1], fmt(n[2][1]), fmt(v)), where_of(sel), trace_of(p))
+    rep.require(nret >= 6, "job selection: returning paths not found")
 
-    # ------------------------------------------------------------------ submit loop
-    lp = prog.fn("retry:_submit_loop")
-    ps, it = ctx.paths(lp, None, depth=1, inline=_loop_inline)
-    nsub = nwait = 0
-    for p in ps:
-        sn_calls = [e for e in p.calls() if e.d["callee"] is sn]
-        waits = [e for e in p.calls() if e.d["callee"] is not None and e.d["callee"].name == "_submit_wait" and len(e.d["args"]) > 1]
-        for e in sn_calls:
-            nsub += 1
-            job = e.d["args"][0]
-            due = None
-            for b in p.evs("branch"):
-                n = norm_cmp(b.d[0], b.d[1])
-                if n and b.seq < e.seq and n[0] == ("attr", job, "when") and n[1] == "<=" and isinstance(n[2], tuple) and n[2][0] == "call" and q.term_name(n[2][1]) == "monotonic":
-                    due = b
-            rep.ob("R-DUE", "_submit_loop: hand-over only when the job is due", due is not None, "_submit_now(job) reached without establishing job.when <= now", where_of(lp, e.node), trace_of(p, e.seq))
-            stopped = [b for b in p.evs("branch") if b.d[0] == ("attr", job, "stop_retry") and b.seq < e.seq]
-            rep.ob("R-DUE", "_submit_loop: a stop-flagged job is never handed over", bool(stopped) and stopped[0].d[1] is False, "", where_of(lp, e.node), trace_of(p, e.seq))
-        for e in waits:
-            nwait += 1
-            d = e.d["args"][1]
-            ok = isinstance(d, tuple) and d[0] == "bin" and d[1] == "-" and d[2][0] == "attr" and d[2][2] == "when" and d[3][0] == "call" and q.term_name(d[3][1]) == "monotonic"
-            notdue = [b for b in p.evs("branch") if b.seq < e.seq and norm_cmp(b.d[0], b.d[1]) and norm_cmp(b.d[0], b.d[1])[2] == d[2] and norm_cmp(b.d[0], b.d[1])[1] == "<" and norm_cmp(b.d[0], b.d[1])[0] == d[3]] if ok else []
-            rep.ob("R-DUE", "_submit_loop: otherwise wait exactly until the job is due", ok and bool(notdue), "timed wait of %s" % fmt(d), where_of(lp, e.node), trace_of(p, e.seq))
-    rep.require(nsub >= 1 and nwait >= 1, "_submit_loop: hand-over / timed wait not found")
+    # ---------------------------------------------------------------- who resolves retry futures
+    # roots: every method of the executor / future class and the loop; resolution of a job's future may only
+    # happen in the callback (final branch) and the loop (stop-retry branch)
+    rfut = prog.cls("RetryFuture")
+    offenders = []
+    for m in sorted(rex.methods.values(), key=lambda f: f.key):
+        if m is cb:
+            continue
+        psm, itm = ctx.paths(m, rex, depth=0)
+        for p in psm:
+            for e in p.calls():
+                if e.fn is m and q.call_name(e) in ("set_result", "set_exception", "set_exception_info") and e.d["callee"] is None:
+                    offenders.append((m, e))
+    rep.ob("R-WHOCALLS", "no other method of the executor sets a job future's outcome directly", not offenders, "%s sets an outcome" % (offenders[0][0].qualname if offenders else ""), where_of(offenders[0][0], offenders[0][1].node) if offenders else where_of(cb))
+    nstoploop = 0
+    for p in ps_loop:
+        for e in p.calls():
+            if q.call_name(e) in ("set_result", "set_exception", "set_exception_info") and e.d["callee"] is None:
+                r = q.recv(e)
+                if isinstance(r, tuple) and r[0] == "super":
+                    r = r[2]
+                if isinstance(r, tuple) and r[0] == "attr" and r[2] == R["future"]:
+                    job = r[1]
+                    st_ = [b for b in p.evs("branch") if isinstance(b.d[0], tuple) and b.d[0][0] == "attr" and b.d[0][1] == job and stop_field and b.d[0][2] == stop_field and b.seq < e.seq]
+                    nstoploop += 1
+                    rep.ob("R-WHOCALLS", "loop: a job's future is resolved only on the stop-retry branch", bool(st_) and st_[-1].d[1] is True, "the worker loop resolves a future although retrying was not stopped", where_of(e.fn, e.node), trace_of(p, e.seq))
+    rep.require(nstoploop >= 1, "retry worker loop: stop-retry branch not found")
 
-    # ------------------------------------------------------------------ policy table
+    _policy(ctx, rep)
+
+
+def _zero_pop(p, JOBS):
+    """the removal helper searched the list without a hit on this (symbolic) iteration: not evidence of a duplicate"""
+    return any(l.d[0] == "enter" and contains(l.d[1], JOBS) for l in p.evs("loop"))
+
+
+def _from_delegate(p, resolved, DP, D):
+    for e in resolved:
+        n = q.call_name(e)
+        if n == "set_result":
+            a = e.d["args"][0] if e.d["args"] else None
+            if isinstance(a, tuple) and a[:2] == ("call", ("attr", DP, "result")):
+                return True
+        else:
+            # exception copied from the completed delegate
+            for c in p.calls():
+                if c.seq < e.seq and c.d["callee"] is not None and c.d["args"][:1] == (DP,) and any(x == D for x in c.d["args"][1:]):
+                    return True
+            a = e.d["args"][0] if e.d["args"] else None
+            if isinstance(a, tuple) and contains(a, ("attr", DP, "exception")) or (isinstance(a, tuple) and contains(a, ("attr", DP, "exception_info"))):
+                return True
+    return False
+
+
+def _policy(ctx, rep):
+    prog = ctx.prog
     pol = prog.cls("ExceptionRetryPolicy")
     srm = pol.methods.get("should_retry")
-    ps, it = ctx.paths(srm, pol, depth=0)
+    slm = pol.methods.get("sleep_time")
+    rep.require(srm is not None and slm is not None, "ExceptionRetryPolicy.should_retry / sleep_time not found")
+    # configuration fields by keyword
+    init = pol.methods.get("__init__")
+    ps, it = ctx.paths(init, pol, depth=0)
+    cfg = {}
+    for p in ps:
+        for e in p.evs("store"):
+            t, v = e.d["target"], e.d["value"]
+            if q.self_field(t) and isinstance(v, tuple) and v[0] == "call" and isinstance(v[1], tuple) and v[1][0] == "attr" and v[1][2] in ("get", "pop") and v[2] and v[2][0][0] == "const":
+                cfg.setdefault(v[2][0][1], t[2])
+    for k in ("max_attempts", "exponent", "sleep", "max_sleep", "exception_base"):
+        rep.ob("R-ARITH", "ExceptionRetryPolicy keeps the `%s` keyword" % k, k in cfg, "no field is initialised from kwargs[%r]" % k, where_of(init))
+    if not all(k in cfg for k in ("max_attempts", "exponent", "sleep", "max_sleep")):
+        return
+    S_ = lambda k: ("attr", SELF, cfg[k])  # noqa: E731
+    ps, it = ctx.paths(srm, pol, depth=2, inline=std_inline)
     A = ("param", srm.params[1])
     FUT = ("param", srm.params[2])
     rows = set()
@@ -286,7 +426,7 @@ def check(ctx, rep):
             t, v = b.d
             if isinstance(t, tuple) and t[0] == "call" and t[1] == ("attr", FUT, "exception"):
                 exc_t = v
-            elif isinstance(t, tuple) and t[0] == "cmp" and t[1] == "is" and t[2][:2] == ("call", ("attr", FUT, "exception")):
+            elif isinstance(t, tuple) and t[0] == "cmp" and t[1] == "is" and isinstance(t[2], tuple) and t[2][:2] == ("call", ("attr", FUT, "exception")):
                 exc_t = not v
             n = norm_cmp(t, v)
             if n and (n[0] == A or n[2] == A):
@@ -295,15 +435,22 @@ def check(ctx, rep):
                 inst = v if inst is None or v else inst
         if exc_t is False:
             rows.add("no exception")
-            rep.ob("R-TABLE", "should_retry: no exception -> False", p.value == ("const", False) and lim is None, "returns %s" % fmt(p.value), where_of(srm), trace_of(p))
+            rep.ob("R-TABLE", "should_retry: no exception -> False", p.value == ("const", False), "returns %s" % fmt(p.value), where_of(srm), trace_of(p))
             continue
-        rep.require(lim is not None, "should_retry: comparison of attempt with the maximum not found")
+        if lim is None:
+            # the limit was not looked at on this path: acceptable only if the answer is False for another reason
+            if inst is False or inst is None:
+                rows.add("other exception")
+                rep.ob("R-TABLE", "should_retry: exception outside the configured bases -> False", p.value == ("const", False), "returns %s" % fmt(p.value), where_of(srm), trace_of(p))
+            else:
+                rep.ob("R-TABLE", "should_retry: the attempt limit is consulted before answering True", False, "answers %s for a retryable exception without comparing attempt with max_attempts" % fmt(p.value), where_of(srm), trace_of(p))
+            continue
         maxf = lim[2] if lim[0] == A else lim[0]
-        rep.ob("R-TABLE", "should_retry: the limit is the configured max_attempts", maxf == ("attr", ("param", "self"), "_max_attempts"), "attempt compared with %s" % fmt(maxf), where_of(srm))
-        if lim[2] == A and lim[1] == "<=":  # max <= attempt
+        rep.ob("R-TABLE", "should_retry: the limit is the configured max_attempts", maxf == S_("max_attempts"), "attempt compared with %s" % fmt(maxf), where_of(srm))
+        if lim[2] == A and lim[1] == "<=":
             rows.add("exhausted")
             rep.ob("R-TABLE", "should_retry: attempt >= max_attempts -> False", p.value == ("const", False), "returns %s" % fmt(p.value), where_of(srm), trace_of(p))
-        elif lim[0] == A and lim[1] == "<":  # attempt < max
+        elif lim[0] == A and lim[1] == "<":
             if inst:
                 rows.add("retryable")
                 rep.ob("R-TABLE", "should_retry: exception of a configured base -> True", p.value == ("const", True), "returns %s" % fmt(p.value), where_of(srm), trace_of(p))
@@ -312,41 +459,10 @@ def check(ctx, rep):
                 rep.ob("R-TABLE", "should_retry: exception outside the configured bases -> False", p.value == ("const", False), "returns %s" % fmt(p.value), where_of(srm), trace_of(p))
         else:
             rep.ob("R-TABLE", "should_retry: attempts are exhausted exactly when attempt >= max_attempts", False, "the code establishes `%s %s %s` (off by one: max_attempts attempts must run, not more, not fewer)" % (fmt(lim[0]), lim[1], fmt(lim[2])), where_of(srm), trace_of(p))
-            rows.add("exhausted")
-            rows.add("retryable")
-            rows.add("other exception")
+            rows.update({"exhausted", "retryable", "other exception"})
     rep.ob("R-TABLE", "should_retry: all four rows present", rows >= {"no exception", "exhausted", "retryable", "other exception"}, "rows found: %s" % sorted(rows), where_of(srm))
-    slm = pol.methods.get("sleep_time")
-    ps, it = ctx.paths(slm, pol, depth=0)
+    ps, it = ctx.paths(slm, pol, depth=2, inline=std_inline)
     A = ("param", slm.params[1])
-    S_ = lambda f: ("attr", ("param", "self"), f)  # noqa: E731
-    want = canon(("call", ("name", "min"), (("bin", "*", S_("_sleep"), ("bin", "**", S_("_exponent"), ("bin", "-", A, ("const", 1)))), S_("_max_sleep")), (), None))
+    want = canon(("call", ("name", "min"), (("bin", "*", S_("sleep"), ("bin", "**", S_("exponent"), ("bin", "-", A, ("const", 1)))), S_("max_sleep")), (), None))
     for p in ps:
         rep.ob("R-ARITH", "sleep_time closed form", p.status == "return" and canon(p.value) == want, "returns %s, expected min(sleep * exponent ** (attempt - 1), max_sleep)" % fmt(p.value), where_of(slm))
-    init = pol.methods.get("__init__")
-    ps, it = ctx.paths(init, pol, depth=0)
-    for p in ps:
-        for f, k in (("_max_attempts", "max_attempts"), ("_exponent", "exponent"), ("_sleep", "sleep"), ("_max_sleep", "max_sleep")):
-            v = [e.d["value"] for e in p.evs("store") if e.d["target"] == S_(f)]
-            ok = bool(v) and isinstance(v[0], tuple) and v[0][0] == "call" and v[0][2][:1] == (("const", k),)
-            rep.ob("R-ARITH", "ExceptionRetryPolicy stores %s from the keyword of the same name" % k, ok, "%s = %s" % (f, fmt(v[0]) if v else None), where_of(init))
-
-    # ------------------------------------------------------------------ who resolves retry futures
-    callers = ctx.callgraph()
-    cs = sorted(set(k for k, _ in callers.get(cpf.key, set())))
-    allowed = {cb.key, lp.key}
-    rep.ob("R-WHOCALLS", "copy_future is called only from the delegate callback and the submit loop", set(cs) <= allowed and len(cs) == 2, "callers: %s" % [c.split(":")[-1] for c in cs], where_of(cpf))
-    rtc = sorted(set(k for k, _ in callers.get(rt.key, set())))
-    rep.ob("R-WHOCALLS", "_retry is called only from the delegate callback", rtc == [cb.key], "callers: %s" % [c.split(":")[-1] for c in rtc], where_of(rt))
-
-
-def _job_init_only(callee, ev, path):
-    if callee.name == "__init__" and callee.owner is not None and callee.owner.name == "RetryJob":
-        return True
-    if callee.name in ("_append_job", "_pop_job"):
-        return True
-    return False
-
-
-def _loop_inline(callee, ev, path):
-    return callee.name in ("_get_next_job", "is_shutdown")
